@@ -259,6 +259,13 @@ func keyEmbeddingsFor(c *concretizer, maxKey int, strideOneOnly bool, thorough b
 	}
 	add(37, 1)
 	add(-1000, 1)
+	// page boundaries of the paginated store (pages of 32 indexes): keys straddling ...31|32..., ...-33|-32..., -1|0
+	add(31, 1)
+	add(-33, 1)
+	add(-1, 1)
+	if !strideOneOnly {
+		add(30, 2)
+	}
 	add(-53, 1)
 	if !strideOneOnly {
 		add(-61, 2)
